@@ -4,7 +4,7 @@ CONSTANTS
   NTraces = 2
   MaxHops = 2
   MaxFlows = 1
-  MaxAddrs = 1
+  MaxAddrs = 2
 INVARIANT DrawOK
 INVARIANT NoFlowKeyCrash
 INVARIANT PrivacyRange
